@@ -11,9 +11,9 @@ HARNESS = ["network/dag/zz_verif_c06_test.go"]
 
 REQUIRED = ["parse_sound", "lc_exact", "lc_exact_fails_without_guard", "admitted_sound", "admitted_prevs_clock",
             "admitted_signature", "add_idempotent", "rejected_no_trace", "dag_inv", "concurrent_adds_serialise",
-            "concurrent_adds_keep_invariant", "created_tx_admissible", "notified_exactly_once",
+            "concurrent_adds_keep_invariant", "created_tx_admissible",
             "fact_allowed_algos", "fact_allowed_versions", "fact_header_names", "fact_parse_steps",
-            "fact_signature_count_checked", "fact_lc_strict", "fact_prev_verifier", "fact_verifier_order",
+            "fact_signature_count_checked", "fact_lc_strict", "fact_jwk_public_only", "embedded_key_is_public", "fact_prev_verifier", "fact_verifier_order",
             "fact_signature_verifier", "fact_add_two_phases", "fact_root_check"]
 
 HEX64 = re.compile(r"^[0-9a-fA-F]{64}$")
@@ -199,10 +199,13 @@ def run(ctx):
         lc = jval(m.get("lc", {}))
         if lc is not None and (lc.denominator != 1 or lc < 0 or lc >= 2 ** 32 or int(lc) != int(d.get("lc", -1))):
             violate("C06:lc-not-exact", f"declared lc={float(lc)!r} admitted as clock {d.get('lc')} (parseLamportClock converts float64 to uint32 unchecked)", i)
+        if "jwk" in m and jws.get("jwkPrivate"):
+            violate("C06:embedded-private-jwk", "ParseTransaction accepted a transaction whose jwk header holds a private/symmetric key "
+                    "(also C17:dagtx:embedded-private-jwk)", i)
         ver = jval(m.get("ver", {}))
         if ver is not None and ver.denominator != 1:
             ver_trunc += 1
-    ctx.oblige("oracle:parser-accepts-only-wellformed(impl)", not any(s.startswith("C06:parser") or s == "C06:lc-not-exact" for s in seen_sig),
+    ctx.oblige("oracle:parser-accepts-only-wellformed(impl)", not any(s.startswith("C06:parser") or s in ("C06:lc-not-exact", "C06:embedded-private-jwk") for s in seen_sig),
                f"{n_parse_ok} accepted inputs re-checked")
     if ver_trunc:
         ctx.notes.append(f"{ver_trunc} accepted inputs carried a non-integral `ver` (truncated by Version(float64)); the property does not speak about it — modelled, not flagged")
@@ -287,6 +290,9 @@ def run(ctx):
                         violate("C06:lc-not-exact", f"declared lc={None if lc is None else float(lc)!r} but admitted at clock {clock}", i)
                     if not pv and any(cl == "0" for cl, _ in lcs_prev):
                         violate("C06:second-root", "a second root was admitted", i)
+                    if "jwk" in m and jws.get("jwkPrivate"):
+                        violate("C06:embedded-private-jwk", "a transaction embedding a private key in its jwk header was admitted "
+                                "(also C17:dagtx:embedded-private-jwk)", i)
                     if "jwk" in m:
                         if not c.get("sigJwk"):
                             violate("C06:admitted-bad-signature", "signature does not verify against the embedded key", i)
